@@ -61,6 +61,13 @@ func (e *Exec) imBinop(op token.Token, a, b Term, xt types.Type) Value {
 		return VInt{imWrapMod(IntBin("*", a, b), w, signed)}
 	case token.QUO, token.REM:
 		e.oblige(Not(IntCmp("=", b, IntC(bigZero()))), "panic", "integer divide by zero")
+		if signed && a.Const && b.Const && b.U.Sign() != 0 {
+			q, r := new(big.Int).QuoRem(a.U, b.U, new(big.Int)) // Go semantics: truncated
+			if op == token.QUO {
+				return VInt{imNorm(q, w, signed)}
+			}
+			return VInt{imNorm(r, w, signed)}
+		}
 		if signed {
 			e.fail("signed division in int mode")
 		}
